@@ -701,9 +701,12 @@ void nsq_diff(Report& rep, const KernelView& k, nsq_fn real_c, const silk_encode
   for (size_t q = 0; q < im.size(); q++) {
     Out* o = outs[q];
     bool dp = memcmp(o->pul.p, pulses, fl) != 0, ds = memcmp(o->st.p, NSQ, sizeof(silk_nsq_state)) != 0, di = memcmp(&o->ind, psIndices, sizeof(SideInfoIndices)) != 0;
-    // Finding F22: silk_NSQ_del_dec_avx2 scales the reconstructed sample with a 64-bit product (silk_sar_round_smulww, "more
-    // correct ... won't overflow like the C code"), the C code and the decoder wrap at 32 bits (silk_SMULWW).  They can only
-    // differ when the true value is far beyond 16 bits, i.e. when the AVX2 result holds a saturated sample.
+    // Finding F22: two helpers of NSQ_del_dec_avx2.c do not reproduce the C arithmetic once the quantiser state has run away
+    // (all pulses at the +30/-31 limiter): silk_sar_round_smulww() scales the reconstructed sample with a 64-bit product
+    // ("more correct ... won't overflow like the C code"; switched to the C formula only under OPUS_CHECK_ASM) while the C
+    // code and the decoder wrap at 32 bits, and silk_mm_srai_round_epi32() rounds with (a+8)>>4, which wraps for the
+    // saturated operand where silk_RSHIFT_ROUND() does not.  Both need values far beyond 16 bits, i.e. the AVX2 result
+    // holds a saturated output sample: that observable class is excluded (tools/proposed_fix_F22.diff repairs both).
     bool f22 = false;
     if (im[q].fn == (void*)silk_NSQ_del_dec_avx2) for (int t = 0; t < psEncC->ltp_mem_length && !f22; t++) f22 = o->st.p->xq[t] >= 32767 || o->st.p->xq[t] <= -32768;
     if (f22) rep.label("silk_NSQ_del_dec:avx2-output-saturated");
